@@ -31,7 +31,7 @@ MIN = {"quick": {"pairs": 70, "atoms_compared": 6000, "pairs_with_altloc": 8, "p
 
 
 def cases(tier, seed):
-    n = 96 if tier == "quick" else 2200
+    n = 96 if tier == "quick" else 16000
     out = []
     for i in range(n):
         out.append({"w": "frag" if i % 4 == 3 else "synth", "seed": seed * 15013 + i, "ff": common.FFS[i % 6],
